@@ -334,4 +334,28 @@ theorem object_union_on_the_left_is_unsound :
     SubSpec.memR [] false 10 (.obj [("a", true, .kw "string")] none) (.obj [("a", .bool true)]) = some false := by
   refine ⟨?_, ?_, ?_⟩ <;> decide +kernel
 
+
+-- ---------- … and for unions of index-signature object types on the right (D84) ----------
+/-- `{[k: string]: number | string}` against `{[k: string]: number} | {[k: string]: string}` -/
+def d84Decision : Option Bool :=
+  let named : Named := []
+  let ix (v : IR) : IR := .object [] (some (.string, true, v))
+  let a : IR := ix (.anyOf [.number, .string])
+  let b : IR := .anyOf [ix .number, ix .string]
+  let run : SM Bool := do
+    let sa ← convert named 50 [] a
+    let sb ← convert named 50 [] b
+    isSubtype 100 sa sb
+  (run {}).map (·.1)
+
+/-- the engine answers "assignable", but `{k1: 7, k2: "x"}` is an exact value of the left type and a value of neither
+member of the right one: all undeclared keys are treated as one coordinate -/
+theorem index_union_on_the_right_is_unsound :
+    d84Decision = some true ∧
+    SubSpec.memR [] true 10 (.obj [] (some (.kw "string", .union [.kw "number", .kw "string"])))
+      (.obj [("k1", .num "7"), ("k2", .str "x")]) = some true ∧
+    SubSpec.memR [] false 10 (.union [.obj [] (some (.kw "string", .kw "number")), .obj [] (some (.kw "string", .kw "string"))])
+      (.obj [("k1", .num "7"), ("k2", .str "x")]) = some false := by
+  refine ⟨?_, ?_, ?_⟩ <;> decide +kernel
+
 end BeffVerif.C05
